@@ -1,7 +1,7 @@
 """
 C11 - beat to time conversion matches the exact timeline for all event interleavings.
 """
-from props.engine_common import TagOrder, TaggedLt, TimeUntil, Advance, Lookup, EngineVsStatement, engine_witness
+from props.engine_common import TagOrder, TaggedLt, TimeUntil, Advance, Lookup, EngineVsStatement, engine_witness, CoalesceWarps
 
 LEVEL = "other"
 TRUSTED = ["T-STD: bisect returns a local boundary index on any list and the partition point on a sorted one; heapq.merge of sorted inputs is the sorted merge",
